@@ -72,6 +72,11 @@ enum Ct {
     Garbage,
     NonAscii,
     OctetStream,
+    /// list forms: a Content-Type names one media type
+    JsonThenText,
+    JsonTrailingComma,
+    CommaThenJson,
+    SmileThenText,
 }
 
 impl Ct {
@@ -88,6 +93,10 @@ impl Ct {
             Ct::Garbage => HeaderValue::from_static("garbage"),
             Ct::NonAscii => HeaderValue::from_bytes(b"application/json\xe9").unwrap(),
             Ct::OctetStream => HeaderValue::from_static("application/octet-stream"),
+            Ct::JsonThenText => HeaderValue::from_static("application/json, text/plain"),
+            Ct::JsonTrailingComma => HeaderValue::from_static("application/json,"),
+            Ct::CommaThenJson => HeaderValue::from_static(", application/json"),
+            Ct::SmileThenText => HeaderValue::from_static("application/x-jackson-smile, text/plain"),
         })
     }
     /// which registered encoding the header names (default runtime: json, smile)
@@ -100,7 +109,7 @@ impl Ct {
     }
 }
 
-const ALL_CT: [Ct; 11] = [Ct::Absent, Ct::Json, Ct::JsonCharset, Ct::Smile, Ct::SmileParam, Ct::AppStar, Ct::TextPlain, Ct::JsonSuffix, Ct::Garbage, Ct::NonAscii, Ct::OctetStream];
+const ALL_CT: [Ct; 15] = [Ct::Absent, Ct::Json, Ct::JsonCharset, Ct::Smile, Ct::SmileParam, Ct::AppStar, Ct::TextPlain, Ct::JsonSuffix, Ct::Garbage, Ct::NonAscii, Ct::OctetStream, Ct::JsonThenText, Ct::JsonTrailingComma, Ct::CommaThenJson, Ct::SmileThenText];
 
 fn headers(ct: Ct) -> HeaderMap {
     let mut h = HeaderMap::new();
@@ -655,6 +664,68 @@ fn hr_bodies(r: &mut Report, rt: &ConjureRuntime) {
     }
 }
 
+/// long texts that are not a spelling of the member's type, with a multi-byte character at
+/// every offset around 64 / 128 / 256 (error paths like to quote a prefix of what they refuse):
+/// as a value and as a map key, JSON and Smile; refused with INVALID_ARGUMENT, never a panic
+fn long_invalid_texts(r: &mut Report, rt: &ConjureRuntime) {
+    use conjure_object::{Bytes, DoubleKey, SafeLong, Uuid};
+    fn one<T: DeserializeOwned + Debug + Send>(r: &mut Report, rt: &ConjureRuntime, ty: &'static str, doc: &serde_json::Value) {
+        let json = serde_json::to_vec(doc).unwrap();
+        let smile = serde_smile::to_vec(doc).unwrap();
+        for (what, ct, body) in [("json", Ct::Json, &json), ("smile", Ct::Smile, &smile)] {
+            // a Smile *string* where a binary value belongs is taken as its raw bytes by the byte
+            // visitor (Smile has a binary token of its own): not a case the statement settles
+            if what == "smile" && (ty == "binary" || ty == "list<binary>") {
+                continue;
+            }
+            r.states += 1;
+            let s = script::default_script(body);
+            let h = headers(ct);
+            let runs: Vec<(&str, Result<bool, String>)> = vec![
+                ("blocking", vcommon::catch(|| <StdRequestDeserializer<{ 50 * 1024 * 1024 }> as DeserializeRequest<T, _>>::deserialize(rt, &h, ScriptIter::new(&s)).is_ok())),
+                ("async", vcommon::catch(|| block_on(<StdRequestDeserializer<{ 50 * 1024 * 1024 }> as AsyncDeserializeRequest<T, _>>::deserialize(rt, &h, ScriptStream::new(&s))).is_ok())),
+            ];
+            for (flavour, got) in runs {
+                r.evaluations += 1;
+                r.transitions += 1;
+                let case = json!({"kind": "long-invalid-text", "type": ty, "encoding": what, "flavour": flavour, "doc": doc});
+                match got {
+                    Ok(false) => r.outcome("rejected:INVALID_ARGUMENT"),
+                    Ok(true) => r.violation(format!("C06|direct|long-invalid-text|accepted|{}|{}", ty, what), format!("{} accepted {} ({})", ty, doc, what), case),
+                    Err(p) => r.violation(format!("C06|direct|long-invalid-text|panic|{}|{}|{}", ty, what, flavour), format!("{} panicked on {} ({}): {}", ty, doc, what, p), case),
+                }
+            }
+        }
+    }
+    let mut texts = vec![];
+    for centre in [64usize, 128, 256] {
+        for lead in centre - 4..=centre + 1 {
+            for ch in ["\u{e9}", "\u{20ac}", "\u{10000}"] {
+                texts.push(format!("{}{}{}", "A".repeat(lead), ch, "B".repeat(8)));
+            }
+        }
+    }
+    for t in &texts {
+        let v = serde_json::Value::String(t.clone());
+        one::<Bytes>(r, rt, "binary", &v);
+        one::<f64>(r, rt, "double", &v);
+        one::<bool>(r, rt, "boolean", &v);
+        one::<Uuid>(r, rt, "uuid", &v);
+        one::<SafeLong>(r, rt, "safelong", &v);
+        one::<i32>(r, rt, "integer", &v);
+        one::<conjure_object::ResourceIdentifier>(r, rt, "rid", &v);
+        one::<conjure_object::DateTime<conjure_object::Utc>>(r, rt, "datetime", &v);
+        let k = json!({ t.as_str(): 1 });
+        one::<BTreeMap<bool, i32>>(r, rt, "map<boolean,integer>", &k);
+        one::<BTreeMap<DoubleKey, i32>>(r, rt, "map<double,integer>", &k);
+        one::<BTreeMap<Bytes, i32>>(r, rt, "map<binary,integer>", &k);
+        one::<BTreeMap<i32, i32>>(r, rt, "map<integer,integer>", &k);
+        one::<BTreeMap<Uuid, i32>>(r, rt, "map<uuid,integer>", &k);
+        one::<Vec<Bytes>>(r, rt, "list<binary>", &json!([t]));
+        one::<Obj>(r, rt, "object(unknown member)", &json!({"a": 1, t.as_str(): 2}));
+    }
+}
+
 fn byte_strings(r: &mut Report, rt: &ConjureRuntime, max_len: usize) {
     vcommon::enumerate::for_each_word(JSON_SYMBOLS.len(), max_len, |w| {
         let body: String = w.iter().map(|i| JSON_SYMBOLS[*i]).collect();
@@ -688,6 +759,7 @@ pub fn run(args: &Args) -> Report {
         Box::new(move |r, rt| limits(r, rt, k.min(2))),
         Box::new(move |r, rt| byte_strings(r, rt, if thorough { 4 } else { 3 })),
         Box::new(move |r, rt| hr_bodies(r, rt)),
+        Box::new(move |r, rt| long_invalid_texts(r, rt)),
         Box::new(move |r, rt| {
             // optional / alias-of-optional / binary deserializers over every Content-Type and script
             for body in [&b"\"x\""[..], b"null", b"\"x\" y", b"\"x", b""] {
@@ -733,6 +805,10 @@ fn replay(path: &str, mut report: Report, rt: &ConjureRuntime) -> Report {
     let v = vcommon::load_replay(path);
     let c = &v["case"];
     report.exhaustive = false;
+    if c["kind"] == "long-invalid-text" {
+        long_invalid_texts(&mut report, rt);
+        return report;
+    }
     if c["kind"] == "hr-body" {
         hr_bodies(&mut report, rt);
         return report;
